@@ -17,6 +17,11 @@
 (* its key to the empty value / it only is a line -- and has to agree with ONE of them in every      *)
 (* answer (which one is recorded in the verdict, field rd); "neither" is a wrong result: e.g. a bare *)
 (* key listed as a key where it stands alone, but an earlier k=v kept where it follows one.          *)
+(* Lines with an empty key ("= v", "==", "=", blanks around): each is a written line, so the line     *)
+(* listing of its domain must contain it (in its place); a success whose answers are exactly those of *)
+(* the document WITHOUT these lines is "silent-partial:line-with-empty-key-not-listed".  Whether ""   *)
+(* is a key the statement does not say: an entry "" of a key listing or map and the answer to         *)
+(* <domain><> are never judged, only recorded (verdict field ek).                                     *)
 (* A "fuzz" record (arbitrary bytes) only has a class: it must not be panic.                         *)
 (* Output: verdicts.ndjson, one verdict per record; sig # "" is a rejected record.                   *)
 EXTENDS Conf, Json
@@ -35,7 +40,7 @@ NoDup(s) == Cardinality(Range(s)) = Len(s)
 AllPaths(names, d) == UNION {[1..n -> names] : n \in 0..d}
 
 EntryIn(q, p) == LET S == {i \in 1..Len(q) : q[i].p = p} IN
-                 IF S = {} THEN [p |-> p, subs |-> <<>>, keys |-> <<>>, lines |-> <<>>, map |-> <<>>, g |-> <<>>]
+                 IF S = {} THEN [p |-> p, subs |-> <<>>, keys |-> <<>>, lines |-> <<>>, map |-> <<>>, g |-> <<>>, ek |-> <<>>]
                  ELSE q[CHOOSE i \in S : TRUE]
 EntryAt(rec, p) == EntryIn(rec.q, p)
 ResAt(e, k) == LET S == {i \in 1..Len(e.g) : e.g[i][1] = k} IN IF S = {} THEN AbsentRes ELSE e.g[CHOOSE i \in S : TRUE][2]
@@ -53,15 +58,17 @@ JudgedPos(r, p, k) == LET x1 == Lookup(r, p, k) IN
 ExpLineTexts(r, p, withNoKey) ==
    LET ls == SelectSeq(LinesOf(r, p), LAMBDA l : withNoKey \/ l.t # "nokey") IN [i \in 1..Len(ls) |-> LineText(ls[i])]
 
-\* names of the getters whose answer differs from the reference, anywhere
-Failed(rec, r) ==
+\* names of the getters whose answer differs from the reference, anywhere (withNoKey = TRUE: the reference; FALSE: the
+\* reference of the document without its lines with an empty key, used only to NAME a failure, never to accept one)
+FailedNK(rec, r, withNoKey) ==
    UNION {
      LET e   == EntryAt(rec, p)
-         opt == {}                 \* keys written without '=' are judged like all others, under the reading r was computed with
+         opt == {""}               \* the statement does not say that the empty text is a key: an entry "" is not judged (see EkObs);
+                                   \* keys written without '=' are judged like all others, under the reading r was computed with
          m   == e.map
      IN (IF Range(e.subs) = Subs(r, p) /\ NoDup(e.subs) THEN {} ELSE {"GetDomain"})
         \cup (IF (Range(e.keys) \ opt) = (KeysOf(r, p) \ opt) /\ NoDup(e.keys) THEN {} ELSE {"GetDomainKey"})
-        \cup (IF e.lines \in {ExpLineTexts(r, p, TRUE), ExpLineTexts(r, p, FALSE)} THEN {} ELSE {"GetDomainLine"})
+        \cup (IF e.lines = ExpLineTexts(r, p, withNoKey) THEN {} ELSE {"GetDomainLine"})   \* exactly the written lines
         \cup (IF /\ NoDup([i \in 1..Len(m) |-> m[i][1]])
                  /\ {m[i][1] : i \in 1..Len(m)} \ opt = KeysOf(r, p) \ opt
                  /\ \A i \in 1..Len(m) : m[i][1] \in opt \/ <<m[i][2]>> = Lookup(r, p, m[i][1])
@@ -69,8 +76,11 @@ Failed(rec, r) ==
         \cup UNION {LET obs == ResAt(e, k) exp == ExpRes(r, p, k) IN
                     {GetterName[j] : j \in {j \in JudgedPos(r, p, k) : obs[j] # exp[j]}} : k \in Range(rec.keys) \ opt}
      : p \in AllPaths(Range(rec.names), rec.depth)}
+Failed(rec, r) == FailedNK(rec, r, TRUE)
 First(fs) == Priority[SetMin({i \in 1..Len(Priority) : Priority[i] \in fs})]
 
+\* texts after the '=' of a line with an empty key (none contains an XML-special character or ends / starts with a blank)
+NoKeyVocab == {"", "=", "zz", "x=y", "k1", "tcp -h 10.0.0.1 -p 9000", "#c"}
 CallerMutations == {"sort-descending", "overwrite-elements", "reuse-from-start", "clear"}
 \* the harness did its part: text = rendering of the lines, vocabulary respected, everything relevant was asked
 Sane(rec, r) ==
@@ -82,6 +92,7 @@ Sane(rec, r) ==
                              /\ doc[i].t = "hos" => doc[i].k \in {"k1", "k2"}
                              /\ doc[i].t \in {"open", "close"} => doc[i].k \in {"app", "Obj.Adapter", "db-2"}
                              /\ doc[i].t = "key" => doc[i].k \in {"k1", "k2", "k3"}
+                             /\ doc[i].t = "nokey" => doc[i].k = "" /\ doc[i].v \in NoKeyVocab
    /\ \A p \in DOMAIN r.dom : Len(p) <= rec.depth /\ Range(p) \subseteq Range(rec.names)
    /\ \A p \in DOMAIN r.dom : (KeysOf(r, p) \cup OptKeys(r, p)) \subseteq Range(rec.keys)
    /\ {"k1", "k2"} \subseteq Range(rec.keys)
@@ -116,7 +127,7 @@ Missing(rec, r) == \E p \in DOMAIN r.dom :
    LET e == EntryAt(rec, p) opt == {} IN
    \/ \E k \in KeysOf(r, p) \ opt : ResAt(e, k)[2] = "<D>" \/ k \notin Range(e.keys)
    \/ ~(Subs(r, p) \subseteq Range(e.subs))
-   \/ Len(e.lines) < Len(ExpLineTexts(r, p, FALSE))
+   \/ Len(e.lines) < Len(ExpLineTexts(r, p, TRUE))
 \* signature of a successful parse whose answers differ: "silent-partial" when part of the document is absent
 Differs(rec, r, fs, partial) == IF fs = {} THEN "" ELSE IF Missing(rec, r) THEN "silent-partial:" \o partial
                                 ELSE "wrong-result:" \o First(fs)
@@ -125,9 +136,25 @@ Differs(rec, r, fs, partial) == IF fs = {} THEN "" ELSE IF Missing(rec, r) THEN 
 XmlBreaking(doc) == \E i \in 1..Len(doc) : HostileLn(doc[i]) /\ doc[i].v # "2>1"
 HasLong(doc) == \E i \in 1..Len(doc) : Binding(doc[i]) /\ doc[i].v = LongVal
 
-V(i, cls, impl, sig, obs) == [i |-> i, cls |-> cls, impl |-> impl, sig |-> sig, obs |-> obs, fs |-> <<>>, rd |-> ""]
+V(i, cls, impl, sig, obs) == [i |-> i, cls |-> cls, impl |-> impl, sig |-> sig, obs |-> obs, fs |-> <<>>, rd |-> "", ek |-> ""]
 VF(i, cls, impl, sig, obs, fs) == [i |-> i, cls |-> cls, impl |-> impl, sig |-> sig, obs |-> obs,
-                                fs |-> SelectSeq(Priority, LAMBDA g : g \in fs), rd |-> ""]
+                                fs |-> SelectSeq(Priority, LAMBDA g : g \in fs), rd |-> "", ek |-> ""]
+\* ---- lines with an empty key: what is NOT judged, only recorded.  For the domains that contain such a line: does a key
+\* listing or map name a key ""; what does <domain><> answer (the default / the text after the '=' of the last such line /
+\* something else, e.g. the empty string).  (The driver asks <domain><> only in documents with such lines: field ek.)
+EkObs(rec, r) ==
+   LET P == {p \in DOMAIN r.dom : \E n \in 1..Len(LinesOf(r, p)) : LinesOf(r, p)[n].t = "nokey"}
+       lastV(p) == LET ls == SelectSeq(LinesOf(r, p), LAMBDA l : l.t = "nokey") IN ls[Len(ls)].v
+       listed == \E p \in P : LET e == EntryAt(rec, p) IN "" \in Range(e.keys) \/ \E n \in 1..Len(e.map) : e.map[n][1] = ""
+       asked  == {p \in P : EntryAt(rec, p).ek # <<>>}
+       ans(p) == EntryAt(rec, p).ek[2]          \* GetStringWithDef(<domain><>, "<D>")
+   IN IF rec.class # "ok" \/ P = {} THEN ""
+      ELSE (IF listed THEN "empty-key-listed-as-key" ELSE "empty-key-not-a-key")
+           \o (IF asked = {} THEN ""
+               ELSE IF \A p \in asked : ans(p) = "<D>" THEN ",query-answers-default"
+               ELSE IF \A p \in asked : ans(p) = "" THEN ",query-answers-empty-string-not-default"
+               ELSE IF \A p \in asked : ans(p) = lastV(p) THEN ",query-answers-text-after-="
+               ELSE ",query-answers-other")
 \* a wrong result of a document with lines without '=' that fits neither reading names that class
 Bare(sig, rd) == IF rd = "neither" /\ sig # "" THEN sig \o ":document-with-key-only-lines" ELSE sig
 Judge(i) ==
@@ -150,10 +177,17 @@ Judge(i) ==
       obs == IF rec.class = "ok" /\ rec.shared # <<>> THEN "listing-storage-shared-between-two-callers"
              ELSE IF rd = "defines" THEN "key-only-line-defines-key"
              ELSE IF rd = "ignored" THEN "key-only-line-ignored" ELSE ""
-      Out(v) == [v EXCEPT !.rd = rd, !.sig = Bare(v.sig, rd)]
+      Out(v) == [v EXCEPT !.rd = rd, !.sig = Bare(v.sig, rd), !.ek = EkObs(rec, rF)]
+      \* every answer is the one the document WITHOUT its lines with an empty key would get (under one of the readings):
+      \* exactly those written lines were dropped
+      nkDropped == /\ rec.class = "ok" /\ HasNoKey(doc) /\ fs # {}
+                   /\ \/ FailedNK(rec, rF, FALSE) = {}
+                      \/ bare /\ FailedNK(rec, rT, FALSE) = {}
   IN IF ~Sane(rec, rF) THEN V(i, cls, rec.class, "harness:record-not-sane", "")
      ELSE IF rec.class = "panic" THEN V(i, cls, "panic", "panic:" \o cls, "")
      ELSE IF rec.class = "err" THEN V(i, cls, "err", IF cls = "wellformed" THEN "spurious-error:wellformed-document" ELSE "", "")
+     ELSE IF cls # "mismatch" /\ nkDropped
+          THEN [VF(i, cls, "ok", "silent-partial:line-with-empty-key-not-listed", obs, {"GetDomainLine"}) EXCEPT !.rd = rd, !.ek = EkObs(rec, rF)]
      ELSE Again(rec, Out(
           CASE cls = "mismatch"   -> IF Dropped(rec, r) THEN V(i, cls, "ok", "silent-partial:mismatched-close", obs)
                                      ELSE V(i, cls, "ok", "", "mismatched-close-accepted")
